@@ -1,6 +1,7 @@
 import Blue.Proofs.TreeScan
 import Blue.Proofs.LevelOver
 import Blue.Proofs.ScanSpec
+import Blue.Proofs.ScanSpecDups
 import Blue.Proofs.AsIsScan
 import Blue.Proofs.ScanCongr
 import Blue.Proofs.Stack
@@ -16,12 +17,15 @@ right-hand side of `scan_spec` — a reference cursor over the live versions in 
 the *dumped* store state — against `KeyValueStore::range_scan` for seeded bounds and programs
 after every operation of every history.
 
-Hypotheses that remain visible: the children behave as sorted tables with pairwise distinct
-`(key, timestamp)` (`Family`; from C10/C11 for files and from the tree's invariants), and the
-scan is not opened in the window between version install and `imm = None` of a flush, where the
-immutable memtable and its file are both children (covered by the check only).  The composition
-as it was written before the repair (per-component pruning) violates the property:
-`scan_resurrects_deleted_key` (D-1). -/
+Hypotheses that remain visible: the children behave as sorted tables (from C10/C11 for files and
+from the tree's invariants).  `scan_spec` asks for pairwise distinct `(key, timestamp)` across the
+children (`Family`); `scan_spec_dups` / `tree_scan_spec_dups` drop that: the same version may be in
+several children (`FamilyW`) — the window between version install and `imm = None` of a flush, where
+the immutable memtable and its file are both children, and identical files — and the scan still
+shows every live version in range exactly once.  What no theorem covers is the malformed case of
+one `(key, timestamp)` with different payloads in different children (stream `stackmal` of C11
+records what the code does there).  The composition as it was written before the repair
+(per-component pruning) violates the property: `scan_resurrects_deleted_key` (D-1). -/
 namespace Blue.Props.C03
 open Blue.Spec Blue.Cursor
 
@@ -40,6 +44,119 @@ theorem scan_spec {K : Type} [DecidableEq K] {klt : K → K → Bool} (st : Stri
       (RefCur (Ver K))
       ⟨((M.map (·.1)).filter (isLive (M.map (·.1)) t tomb)).filter (inRange klt sb eb), 0⟩ :=
   Blue.Spec.scan_spec st M k fam t tomb sb eb n hn C cs rs hkids hbeh
+
+/-- **the scan shows exactly the live keys in range, each once, also when several children hold the
+    same version.**  `M` is the weakly sorted merge *with multiplicity* of the `k` strictly sorted
+    children (`FamilyW`; in `Ver K = K × Nat` an entry is its `(key, timestamp)` and the payload is
+    a function of it, so a duplicate is an identical entry); `dedupAdj` removes the adjacent
+    repetitions, i.e. `dedupAdj (M.map (·.1))` is the strictly sorted list of the *set* of versions
+    (`dedup_is_the_set_of_versions`).  Same shape and strength as `scan_spec`: any children `C`
+    behaving as tables, every finite program in both directions. -/
+theorem scan_spec_dups {K : Type} [DecidableEq K] {klt : K → K → Bool} (st : StrictTotal klt)
+    (M : List (Ver K × Nat)) (k : Nat) (fam : FamilyW (vlt klt) M k)
+    (t : Nat) (tomb : Ver K → Bool) (sb eb : Bound K) (n : Nat) (hn : (M.map (·.1)).length + 2 ≤ n)
+    (C : Cur (Ver K)) (cs : List C.σ) (rs : List (Ref (Ver K)))
+    (hkids : (rs.map (·.xs)).Perm ((List.range k).map (childList M)))
+    (hbeh : cs.map (behA (SeekAdm klt) C) = rs.map (behA (SeekAdm klt) (RefCur (Ver K)))) :
+    BehEq (SeekAdm klt)
+      (BoundsC.cur (PruningC.cur (MergingC.cur C (vlt klt)) (pcfg t tomb) n) (bcfg klt sb eb) n)
+      (BoundsC.new (PruningC.cur (MergingC.cur C (vlt klt)) (pcfg t tomb) n) (bcfg klt sb eb)
+        (PruningC.new (MergingC.cur C (vlt klt)) (MergingC.new C (vlt klt) cs)))
+      (RefCur (Ver K))
+      ⟨((dedupAdj (M.map (·.1))).filter (isLive (dedupAdj (M.map (·.1))) t tomb)).filter (inRange klt sb eb), 0⟩ :=
+  Blue.Spec.scan_spec_dups st M k fam t tomb sb eb n hn C cs rs hkids hbeh
+
+/-- `dedupAdj` of the weakly sorted merge is strictly sorted and has the same members: it is THE
+    sorted list of the set of versions (`sorted_ext`: there is only one) -/
+theorem dedup_is_the_set_of_versions {K : Type} [DecidableEq K] {klt : K → K → Bool} (st : StrictTotal klt)
+    (L : List (Ver K)) (hw : SortedW klt L) :
+    Sorted klt (dedupAdj L) ∧ ∀ e, e ∈ dedupAdj L ↔ e ∈ L :=
+  ⟨sorted_dedupAdj st hw, mem_dedupAdj L⟩
+
+/-- the list `scan_spec_dups` names is the list `scan_spec` names for the duplicate-free table of the
+    same versions: a version held by several children changes no scan, at any timestamp, for all
+    bounds (so a scan opened inside the flush window shows what one opened before or after it shows) -/
+theorem scan_dups_list_eq {K : Type} [DecidableEq K] {klt : K → K → Bool} (st : StrictTotal klt)
+    (L M0 : List (Ver K)) (hw : SortedW klt L) (hs0 : Sorted klt M0) (hsame : ∀ e, e ∈ L ↔ e ∈ M0)
+    (t : Nat) (tomb : Ver K → Bool) (sb eb : Bound K) :
+    ((dedupAdj L).filter (isLive (dedupAdj L) t tomb)).filter (inRange klt sb eb)
+      = (M0.filter (isLive M0 t tomb)).filter (inRange klt sb eb) :=
+  Blue.Spec.scan_dups_list_eq st L M0 hw hs0 hsame t tomb sb eb
+
+/-- the pruning-cursor half: of adjacent equal entries the pruning cursor shows only the first —
+    its list over a table with adjacent repetitions is its list over the table without them (any
+    configuration, any table) -/
+theorem pruning_shows_duplicates_once {E K : Type} [DecidableEq K] [DecidableEq E] (cfg : PruneCfg E K)
+    (xs : List E) : pruned cfg (dedupAdj xs) = pruned cfg xs :=
+  Blue.Spec.pruned_dedupAdj cfg xs
+
+/-- the store's stack (every child a level: concatenation of lazily opened files) with duplicates
+    across levels -/
+theorem tree_scan_spec_dups {K : Type} [DecidableEq K] {klt : K → K → Bool} (st : StrictTotal klt)
+    (M : List (Ver K × Nat)) (k : Nat) (fam : FamilyW (vlt klt) M k)
+    (t : Nat) (tomb : Ver K → Bool) (sb eb : Bound K) (n : Nat) (hn : (M.map (·.1)).length + 2 ≤ n)
+    {S : Cur (Ver K)} (levels : List (List (S.σ × List (Ver K))))
+    (hfiles : ∀ lvl ∈ levels, ∀ f ∈ lvl, BehEq (SeekAdm klt) S f.1 (RefCur (Ver K)) ⟨f.2, 0⟩)
+    (hne : ∀ lvl ∈ levels, 0 < lvl.length)
+    (hsorted : ∀ lvl ∈ levels, Sorted klt (lvl.map (·.2)).flatten)
+    (hkids : ((levels.map levelTable).map (·.xs)).Perm ((List.range k).map (childList M))) :
+    BehEq (SeekAdm klt)
+      (BoundsC.cur (PruningC.cur (MergingC.cur (ConcatC.cur (LazyC.cur S)) (vlt klt)) (pcfg t tomb) n)
+        (bcfg klt sb eb) n)
+      (BoundsC.new (PruningC.cur (MergingC.cur (ConcatC.cur (LazyC.cur S)) (vlt klt)) (pcfg t tomb) n)
+        (bcfg klt sb eb)
+        (PruningC.new (MergingC.cur (ConcatC.cur (LazyC.cur S)) (vlt klt))
+          (MergingC.new (ConcatC.cur (LazyC.cur S)) (vlt klt) (levels.map levelCursor))))
+      (RefCur (Ver K))
+      ⟨((dedupAdj (M.map (·.1))).filter (isLive (dedupAdj (M.map (·.1))) t tomb)).filter (inRange klt sb eb), 0⟩ :=
+  Blue.Spec.tree_scan_spec_dups st M k fam t tomb sb eb n hn levels hfiles hne hsorted hkids
+
+/-! ### non-vacuity of `scan_spec_dups`: the flush window -/
+
+def natLt (a b : Nat) : Bool := decide (a < b)
+
+theorem natLt_strictTotal : StrictTotal natLt where
+  irrefl := by intro a; simp [natLt]
+  trans := by intro a b c; simp only [natLt, decide_eq_true_eq]; omega
+  total := by intro a b h; simp only [natLt, decide_eq_true_eq]; omega
+
+/-- child 0 = the immutable memtable `[1@5, 2@3]`, child 1 = its file (the SAME content), child 2 = an
+    older file `[1@2, 3@1]`; versions are `(key, ts)`, `2@3` is a tombstone -/
+def flushWindow : List (Ver Nat × Nat) :=
+  [((1, 5), 0), ((1, 5), 1), ((1, 2), 2), ((2, 3), 0), ((2, 3), 1), ((3, 1), 2)]
+
+theorem flushWindow_family : FamilyW (vlt natLt) flushWindow 3 where
+  sorted := by decide
+  owner := by decide
+  child := by
+    intro j hj
+    rcases j with _ | _ | _ | j
+    · decide
+    · decide
+    · decide
+    · omega
+
+/-- the hypotheses of `scan_spec_dups` are met by the flush-window shape (one child's whole content
+    repeated as another child, a duplicated tombstone, a duplicate at the first key), and the
+    theorem says something: the scan at `t = 9`, unbounded, behaves as the cursor over `[1@5, 3@1]` -/
+example :
+    BehEq (SeekAdm natLt)
+      (BoundsC.cur (PruningC.cur (MergingC.cur (RefCur (Ver Nat)) (vlt natLt))
+        (pcfg 9 (fun e => e == (2, 3))) 8) (bcfg natLt .unbounded .unbounded) 8)
+      (BoundsC.new (PruningC.cur (MergingC.cur (RefCur (Ver Nat)) (vlt natLt)) (pcfg 9 (fun e => e == (2, 3))) 8)
+        (bcfg natLt .unbounded .unbounded)
+        (PruningC.new (MergingC.cur (RefCur (Ver Nat)) (vlt natLt))
+          (MergingC.new (RefCur (Ver Nat)) (vlt natLt)
+            [⟨[(1, 5), (2, 3)], 0⟩, ⟨[(1, 5), (2, 3)], 0⟩, ⟨[(1, 2), (3, 1)], 0⟩])))
+      (RefCur (Ver Nat)) ⟨[(1, 5), (3, 1)], 0⟩ := by
+  have h := scan_spec_dups natLt_strictTotal flushWindow 3 flushWindow_family 9 (fun e => e == (2, 3))
+    .unbounded .unbounded 8 (by decide) (RefCur (Ver Nat))
+    [⟨[(1, 5), (2, 3)], 0⟩, ⟨[(1, 5), (2, 3)], 0⟩, ⟨[(1, 2), (3, 1)], 0⟩]
+    [⟨[(1, 5), (2, 3)], 0⟩, ⟨[(1, 5), (2, 3)], 0⟩, ⟨[(1, 2), (3, 1)], 0⟩] (by decide) rfl
+  have e : ((dedupAdj (flushWindow.map (·.1))).filter (isLive (dedupAdj (flushWindow.map (·.1))) 9 (fun e => e == (2, 3)))).filter
+      (inRange natLt .unbounded .unbounded) = [(1, 5), (3, 1)] := by decide
+  rw [e] at h
+  exact h
 
 /-- the list a scan shows depends only on the store's *set* of versions — so flush, trivial move
     and non-GC compaction change no scan, at any timestamp and for all bounds -/
@@ -75,6 +192,11 @@ theorem per_component_pruning_resurrects_deleted_key :
 end Blue.Props.C03
 
 #print axioms Blue.Props.C03.scan_spec
+#print axioms Blue.Props.C03.scan_spec_dups
+#print axioms Blue.Props.C03.dedup_is_the_set_of_versions
+#print axioms Blue.Props.C03.scan_dups_list_eq
+#print axioms Blue.Props.C03.pruning_shows_duplicates_once
+#print axioms Blue.Props.C03.tree_scan_spec_dups
 #print axioms Blue.Props.C03.scan_depends_only_on_versions
 #print axioms Blue.Props.C03.live_is_visible
 #print axioms Blue.Props.C03.per_component_pruning_resurrects_deleted_key
